@@ -18,6 +18,13 @@ on ALL remaining inputs and judged by oracles that do not use `bind`:
   * `ast.dump(u.fun_ast)` / `u.parameters` before and after every bind, results of repeated binds
     of the same values after any history, a fresh unbound object;
   * wrong arity / unknown names must raise, and must leave the object usable.
+Container shapes (`shape_programs`, same for every seed, + a few random ones): Parameter[Qmatrix[T, n, m]] for all
+1 <= n, m <= 3, Qlist of every length 1..4, Tuples of mixed element types, nested containers, Qint of every shipped
+width - bound to values whose entries are NARROWER than the declared element type inside width-sensitive bodies
+(`~x`, `x + y` overflowing the narrow width, `x - 1`, `x << 2`, comparisons with a wider operand), to values with an
+entry outside the declared range, and to wrongly shaped values (transposed, ragged, too long / short, an atom for a
+row, ...), which must be bound as bare literals; and `is_value_of(annotation, value)` itself on every such shape x
+every right / wrong variant, against the harness' own reading and the Lean model `isValueOfAnn` (annotation as written).
 Correspondence with the Lean model (QV.Model.Bind) through the driver: unbound-or-not and the
 parameter table, the header of the bound AST handed to the translator (argument names, injected
 assignments with their `to_val` trees, untouched body), error texts; `Sem` in Python values
@@ -38,10 +45,13 @@ from .common import Ctx, Result
 LEVEL = "proof"
 QUIRK = "bindDropsType"
 FID = "C08-bind-drops-declared-type"
+QUIRK_NESTED = "annNestedContainerUnread"
+FID_NESTED = "C08-nested-container-annotation"
 
 # --------------------------------------------------------------------------- types
-# T ::= "bool" | ["qint", w] | ["tuple", [T...]] | ["qlist", T, n] | ["list", T, n]
-# ("list" = typing.List annotation for a parameter; values are python lists of length n)
+# T ::= "bool" | ["qint", w] | ["tuple", [T...]] | ["qlist", T, n] | ["qmatrix", T, n, m] | ["list", T, n]
+# ("list" = typing.List annotation for a parameter; values are python lists of length n;
+#  "qmatrix" = n rows of m entries: its elements are n x ["qlist", T, m])
 
 
 def ty_src(t):
@@ -53,6 +63,8 @@ def ty_src(t):
         return "Tuple[" + ", ".join(ty_src(x) for x in t[1]) + "]"
     if t[0] == "qlist":
         return f"Qlist[{ty_src(t[1])}, {t[2]}]"
+    if t[0] == "qmatrix":
+        return f"Qmatrix[{ty_src(t[1])}, {t[2]}, {t[3]}]"
     if t[0] == "list":
         return f"List[{ty_src(t[1])}]"
     raise ValueError(t)
@@ -61,6 +73,8 @@ def ty_src(t):
 def ty_elems(t):
     if t[0] == "tuple":
         return list(t[1])
+    if t[0] == "qmatrix":
+        return [["qlist", t[1], t[3]]] * t[2]
     if t[0] in ("qlist", "list"):
         return [t[1]] * t[2]
     return None
@@ -88,7 +102,7 @@ def is_value_of(t, v):
         return isinstance(v, bool)
     if t[0] == "qint":
         return type(v) is int and t[1] in QINT_WIDTHS and 0 <= v < 2 ** t[1]
-    if t[0] in ("tuple", "qlist"):
+    if t[0] in ("tuple", "qlist", "qmatrix"):
         el = ty_elems(t)
         return isinstance(v, (tuple, list)) and len(el) > 0 and len(v) == len(el) and all(is_value_of(x, y) for x, y in zip(el, v))
     return False
@@ -335,7 +349,7 @@ def in_width_model(p):
     exp_ops(p["ret"], ops)
     if not ops <= (W_OPS | {"not", "inv", "ite", "idx"}):
         return False
-    return all(a["ty"] == "bool" or a["ty"][0] in ("qint", "tuple", "qlist") for a in p["args"]) and \
+    return all(a["ty"] == "bool" or a["ty"][0] in ("qint", "tuple", "qlist", "qmatrix") for a in p["args"]) and \
         (p["rty"] == "bool" or p["rty"][0] == "qint")
 
 
@@ -590,6 +604,364 @@ def random_program(rng, idx, max_in_bits=7):
     return {"name": f"pr_{idx}", "args": args, "rty": rty, "body": body, "ret": ret}
 
 
+# --------------------------------------------------------------------------- container shapes (`is_value_of`)
+# Every container shape of Parameter[...] with entries NARROWER than the declared element type in width-sensitive
+# bodies, and wrongly shaped values.  Whether a keyword value "is a value of the declared type" decides between the
+# typed assignment `k: T = v` and the bare literal; the harness' own reading is `is_value_of` above.
+
+
+def all_leaves(e, t):
+    """(expression, scalar type) of every scalar reachable from e : t, in bit order"""
+    if t == "bool" or t[0] == "qint":
+        return [(e, t)]
+    out = []
+    for i, x in enumerate(ty_elems(t)):
+        out.extend(all_leaves(["idx", e, i], x))
+    return out
+
+
+def build_value(t, f, ctr=None):
+    """a python value of shape t, leaf number i of scalar type lt set to f(i, lt); Tuple -> tuple, Qlist/Qmatrix -> lists"""
+    ctr = ctr if ctr is not None else [0]
+    if t == "bool" or t[0] == "qint":
+        i = ctr[0]
+        ctr[0] += 1
+        return f(i, t)
+    xs = [build_value(x, f, ctr) for x in ty_elems(t)]
+    return tuple(xs) if t[0] == "tuple" else xs
+
+
+def n_leaves(t):
+    return len(all_leaves(V("c"), t))
+
+
+def leaf_narrow(base):
+    return lambda i, lt: ((i + base) % 2 == 0) if lt == "bool" else (base + i) % 4
+
+
+def leaf_full(i, lt):
+    return (i % 2 == 1) if lt == "bool" else 2 ** lt[1] - 1 - (i % 2)
+
+
+def leaf_mixed(i, lt):
+    return leaf_narrow(1)(i, lt) if i % 2 == 0 else leaf_full(i, lt)
+
+
+def value_patterns(t):
+    """right-shaped values: narrow entries (two bases), all 1, all 0, entries that need the declared width, mixed"""
+    return [("narrow1", build_value(t, leaf_narrow(1))), ("zeros", build_value(t, lambda i, lt: False if lt == "bool" else 0)),
+            ("mixed", build_value(t, leaf_mixed)), ("full", build_value(t, leaf_full)),
+            ("ones", build_value(t, lambda i, lt: True if lt == "bool" else 1)), ("narrow2", build_value(t, leaf_narrow(2)))]
+
+
+def _first_atom(v):
+    while isinstance(v, (list, tuple)) and len(v) > 0:
+        v = v[0]
+    return v
+
+
+def wrong_shapes(t, v):
+    """values derived from the right-shaped v that (mostly) are NOT of shape t: (label, value).  Whether each one is a
+    value of t is decided by the harness' own `is_value_of` (a transposed square matrix still is one)."""
+    if t == "bool" or t[0] == "qint":
+        return []
+    v = list(v)
+    wrap = tuple if t[0] == "tuple" else list
+    out = []
+    if t[0] == "qmatrix":
+        out.append(("transposed", [list(r) for r in zip(*v)]))
+        out.append(("ragged_short", v[:-1] + [list(v[-1])[:-1]]))
+        out.append(("ragged_long", [list(v[0]) + [v[0][-1]]] + v[1:]))
+        out.append(("row_atom", v[:-1] + [v[-1][0]]))
+        out.append(("first_row_short", [list(v[0])[:-1]] + v[1:]))
+        out.append(("flat", [x for r in v for x in r]))
+    out.append(("too_long", wrap(v + [v[-1]])))
+    out.append(("too_short", wrap(v[:-1])))
+    out.append(("wrapped", [wrap(v)]))
+    out.append(("atom", _first_atom(v)))
+    if t[0] == "tuple" and len(v) > 1:
+        out.append(("reversed", tuple(reversed(v))))
+        out.append(("rotated", tuple(v[1:] + v[:1])))
+    el = ty_elems(t)
+    for i in sorted({len(el) - 1, 0}, reverse=True):
+        if el[i] != "bool" and el[i][0] != "qint":
+            for lab, w in wrong_shapes(el[i], v[i])[:5]:
+                out.append((f"inner{i}_{lab}", wrap(v[:i] + [w] + v[i + 1:])))
+    return out
+
+
+def entry_variants(t, base):
+    """right shape, one entry that is no value of its declared scalar type: (label, value)"""
+    lv = all_leaves(V("c"), t)
+    ints = [i for i, (_, lt) in enumerate(lv) if lt != "bool"]
+    bools = [i for i, (_, lt) in enumerate(lv) if lt == "bool"]
+    out = []
+
+    def repl(j, x):
+        return build_value(t, lambda i, lt: x if i == j else base(i, lt))
+
+    if ints:
+        j = ints[-1]
+        out.append(("ood", repl(j, 2 ** lv[j][1][1])))
+        out.append(("bool_for_int", repl(j, True)))
+        out.append(("neg_entry", repl(j, -1)))
+        out.append(("ood_first", repl(ints[0], 2 ** lv[ints[0]][1][1] + 1)))
+    if bools:
+        out.append(("int_for_bool", repl(bools[0], 1)))
+    out.append(("str_entry", repl(len(lv) - 1, "x")))
+    return out
+
+
+def _inv(e):
+    return ["un", "inv", e]
+
+
+# width-sensitive bodies over a narrow entry x, another entry y and an argument a (all int valued)
+INT_BODIES = [
+    lambda x, y, a: B("band", _inv(x), a),                                     # ~x at the declared width
+    lambda x, y, a: B("add", B("add", x, y), a),                               # x + y overflows the narrow width
+    lambda x, y, a: B("add", B("sub", x, CI(1)), a),                           # x - 1 wraps at the declared width
+    lambda x, y, a: B("add", B("shl", x, CI(2)), a),                           # x << 2 is cut at the declared width
+    lambda x, y, a: B("shr", _inv(x), CI(1)),
+    lambda x, y, a: ["ite", B("gt", _inv(y), a), x, B("band", _inv(x), a)],    # comparison with a wider operand
+    lambda x, y, a: B("bxor", B("shl", _inv(y), CI(1)), x),
+    lambda x, y, a: ["ite", B("le", B("sub", x, CI(1)), a), B("add", y, a), _inv(y)],
+]
+
+
+def shape_program(name, t, k, values):
+    """one parameter c of container type t; arguments s: bool, a: Qint[<=4]; returns one of two width-sensitive
+    bodies (chosen by k) over the last / first integer entry of c"""
+    lv = all_leaves(V("c"), t)
+    ints = [(e, lt) for e, lt in lv if lt != "bool"]
+    bools = [(e, lt) for e, lt in lv if lt == "bool"]
+    args = [P("c", t), A("s", "bool")]
+    if ints:
+        W = max(lt[1] for _, lt in ints)
+        x, y = ints[-1][0], ints[0][0]
+        args.append(A("a", ["qint", min(W, 4)]))
+        cond = B("bxor", V("s"), bools[-1][0]) if bools else V("s")
+        nb = len(INT_BODIES)
+        b1 = INT_BODIES[k % nb](x, y, V("a"))
+        b2 = INT_BODIES[(k + 1 + (k // nb) % (nb - 1)) % nb](x, y, V("a"))
+        rty, ret = ["qint", W], ["ite", cond, b1, b2]
+    else:
+        args.append(A("a", "bool"))
+        rty, ret = "bool", B("bxor", bools[-1][0], B("and", bools[0][0], B("or", V("s"), V("a"))))
+    return {"name": name, "args": args, "rty": rty, "body": [], "ret": ret, "shape": True, "must_bind": True,
+            "values": [{"c": v} for v in values]}
+
+
+def scalar_program(name, w, values):
+    """Parameter[Qint[w]] for a shipped width w, bound to values narrower than w"""
+    c, a = V("c"), V("a")
+    if w % 2 == 0:
+        ret = ["ite", V("s"), B("add", B("shl", c, CI(max(w - 2, 1))), a), B("shr", _inv(c), CI(1))]
+    else:
+        ret = ["ite", V("s"), B("add", B("sub", c, CI(1)), a), B("band", _inv(c), B("shl", a, CI(w - 2)))]
+    return {"name": name, "args": [P("c", ["qint", w]), A("s", "bool"), A("a", ["qint", 2])], "rty": ["qint", w],
+            "body": [], "ret": ret, "shape": True, "must_bind": True, "values": [{"c": v} for v in values]}
+
+
+def shape_types():
+    """the systematic container shapes: (type, body index)"""
+    Q2, Q3, Q4, Q8 = ["qint", 2], ["qint", 3], ["qint", 4], ["qint", 8]
+    out = []
+    for n in (1, 2, 3):          # every Qmatrix n x m, 1 <= n, m <= 3 (1 x k, k x 1, square and non-square)
+        for m in (1, 2, 3):
+            out.append(["qmatrix", Q4, n, m])
+    out += [["qmatrix", Q2, 2, 3], ["qmatrix", "bool", 3, 2], ["qmatrix", "bool", 1, 2], ["qmatrix", Q3, 2, 1],
+            ["qmatrix", Q8, 1, 2], ["qmatrix", Q3, 3, 2]]
+    for n in (1, 2, 3, 4):       # Qlist of every length 1..4
+        out.append(["qlist", Q4, n])
+    out += [["qlist", "bool", 1], ["qlist", "bool", 4], ["qlist", Q3, 2], ["qlist", Q8, 3]]
+    # Tuple of mixed element types
+    out += [["tuple", ["bool", Q4]], ["tuple", [Q2, Q4, Q8]], ["tuple", [Q4, "bool", Q3]], ["tuple", [Q4]],
+            ["tuple", [Q4, Q4, Q4, "bool"]]]
+    # nested containers
+    out += [["qlist", ["tuple", ["bool", Q4]], 2], ["tuple", [["qlist", Q4, 2], "bool"]],
+            ["tuple", [["qlist", Q4, 3], Q4]], ["qlist", ["qlist", Q4, 3], 2],
+            ["tuple", [["tuple", [Q4, Q4, Q4]], ["tuple", [Q4, Q4, Q4]]]], ["tuple", [["qmatrix", Q4, 2, 1], Q4]],
+            ["qlist", ["qmatrix", Q4, 1, 2], 2], ["tuple", [["qmatrix", Q4, 1, 3], ["qmatrix", "bool", 2, 1]]],
+            ["tuple", [["qmatrix", Q4, 2, 3]]], ["tuple", [["qlist", Q4, 2]]], ["qlist", ["qlist", "bool", 3], 2]]
+    return [(t, k) for k, t in enumerate(out)]
+
+
+def shape_bind_values(t, k, n_right=6, n_wrong=3):
+    """the keyword values a shape program is bound to: right-shaped patterns, one entry out of the declared range,
+    then wrongly shaped ones (a transposed value always for a non-square matrix, the others rotating with k)"""
+    pats = value_patterns(t)
+    vals = [v for _, v in pats[:n_right]]
+    ev = entry_variants(t, leaf_narrow(1))
+    vals.append(dict(ev)["ood"] if "ood" in dict(ev) else ev[0][1])
+    ws = wrong_shapes(t, pats[0][1])
+    pick = []
+    if t[0] == "qmatrix" and t[2] != t[3]:
+        pick.append(0)
+    want = min(n_wrong, len(ws))
+    j = k
+    for _ in range(4 * len(ws)):          # k, k + step, k + 2 step, ... (mod the number of variants)
+        if len(pick) >= want:
+            break
+        if j % len(ws) not in pick:
+            pick.append(j % len(ws))
+        j += 3 if len(ws) % 3 else 2
+    for i in range(len(ws)):              # (the stride may not reach every variant)
+        if len(pick) < want and i not in pick:
+            pick.append(i)
+    vals.extend(ws[i][1] for i in pick)
+    return vals
+
+
+def scalar_values(w):
+    vs = [1, 0, 3, 2 ** w - 1, 9 if w > 4 else 2, 2 ** (w - 1), 2]
+    if w > 8:
+        vs.append(200)
+    vs.append(2 ** w)  # not a value of Qint[w]
+    return vs
+
+
+def shape_programs(thorough=False):
+    """quick: 4 right-shaped values (narrow entries, zeros, mixed, full width) + 1 out-of-range entry + 4 wrongly
+    shaped values per container shape; thorough: 6 + 1 + every wrongly shaped variant"""
+    out = []
+    for t, k in shape_types():
+        vals = shape_bind_values(t, k, 6, 99) if thorough else shape_bind_values(t, k, 4, 4)
+        out.append(shape_program(f"psh_{k}", t, k, vals))
+    for j, w in enumerate(QINT_WIDTHS):   # scalars of every shipped width
+        out.append(scalar_program(f"psc_{w}", w, scalar_values(w) if thorough else scalar_values(w)[:5] + [2 ** w]))
+    return out
+
+
+def random_shape_type(rng, depth=0):
+    def elem():
+        return rng.choice(["bool", ["qint", 2], ["qint", 3], ["qint", 4], ["qint", 4], ["qint", 5], ["qint", 6], ["qint", 8]])
+
+    def inner():
+        return random_shape_type(rng, depth + 1) if depth < 1 and rng.random() < 0.4 else elem()
+
+    r = rng.random()
+    if r < 0.45:
+        n, m = rng.randint(1, 3), rng.randint(1, 3)
+        if n == m and rng.random() < 0.7:
+            m = (m % 3) + 1
+        return ["qmatrix", elem(), n, m]
+    if r < 0.7:
+        return ["qlist", inner(), rng.randint(1, 4)]
+    return ["tuple", [inner() for _ in range(rng.randint(1, 3))]]
+
+
+def random_shape_program(rng, idx):
+    while True:
+        t = random_shape_type(rng)
+        if n_leaves(t) <= 12:
+            break
+    k = rng.randrange(1000)
+
+    def rnd_leaf(i, lt):
+        if lt == "bool":
+            return rng.random() < 0.5
+        return rng.randrange(4) if rng.random() < 0.6 else rng.randrange(2 ** lt[1])
+
+    vals = [build_value(t, rnd_leaf) for _ in range(4)]
+    ev = entry_variants(t, rnd_leaf)
+    vals.append(rng.choice(ev)[1])
+    ws = wrong_shapes(t, vals[0])
+    for lab, w in rng.sample(ws, min(3, len(ws))):
+        vals.append(w)
+    return shape_program(f"prs_{idx}", t, k, vals)
+
+
+def has_q(t):
+    if t == "bool" or t[0] == "qint":
+        return False
+    return t[0] in ("qlist", "qmatrix") or any(has_q(x) for x in (t[1] if t[0] == "tuple" else [t[1]]))
+
+
+def nested_container_unread(t):
+    """the trigger of finding C08-nested-container-annotation, read off the declared type: some Qlist / Qmatrix, or some
+    one-element Tuple[T], whose element annotation contains a Qlist / Qmatrix"""
+    if t == "bool" or t[0] == "qint":
+        return False
+    if t[0] in ("qlist", "qmatrix"):
+        return has_q(t[1]) or nested_container_unread(t[1])
+    if t[0] == "tuple" and len(t[1]) == 1:
+        return has_q(t[1][0])
+    return any(nested_container_unread(x) for x in (t[1] if t[0] == "tuple" else [t[1]]))
+
+
+# how the translator fails on an annotation it cannot read: translate_argument's last branch, or its `to_name` on a
+# subscript whose arguments are bare names (`Qlist[bool, 3]`)
+UNREAD_ERRORS = ("UnknownTypeException", "AttributeError: 'Name' object has no attribute 'value'")
+
+
+def ann_json(node):
+    """an annotation as the model's AnnE: what `is_value_of` looks at"""
+    if isinstance(node, ast.Name):
+        return ["name", node.id]
+    if isinstance(node, ast.Subscript) and isinstance(node.value, ast.Name):
+        sl = node.slice
+        elts = sl.elts if isinstance(sl, ast.Tuple) else [sl]
+        return ["sub", node.value.id, [ann_json(e) for e in elts]]
+    if isinstance(node, ast.Constant) and type(node.value) is int:
+        return ["int", node.value]
+    return ["other"]
+
+
+def _is_int_in(lo, hi):
+    return lambda v: type(v) is int and lo <= v < hi
+
+
+def _never(v):
+    return False
+
+
+# annotations outside the harness' type grammar, with the property's reading of "a value of it" (the repaired bind keeps
+# the declared type for bool, the builtin Qint / Qfixed / Qchar classes and Tuple / Qlist / Qmatrix of them; any other
+# annotation - sloppy ones the suite and the docs use included - has no values: bound as a bare literal, as before)
+EXTRA_ANNS = [
+    ("Qint4", _is_int_in(0, 16)), ("Qint16", _is_int_in(0, 65536)), ("Qint2", _is_int_in(0, 4)),
+    ("Qint[9]", _never), ("Qint[0]", _never), ("Qint[2, 3]", _never), ("Qint", _never), ("Qint9", _never),
+    ("Qlist[2, bool]", _never), ("Qlist[bool]", _never), ("Qlist[bool, 0]", _never), ("Qlist[bool, 2, 2]", _never),
+    ("Qlist", _never), ("Qmatrix[Qint[4], 2]", _never), ("Qmatrix[Qint[4], 0, 2]", _never), ("Qmatrix[Qint[4], 2, 0]", _never),
+    ("Qmatrix[2, 2, Qint[4]]", _never), ("Qmatrix", _never), ("Tuple", _never), ("List[bool]", _never),
+    ("List[Tuple[bool, bool]]", _never), ("typing.Tuple[bool, bool]", _never), ("int", _never), ("bool[2]", _never),
+    ("Qchar", lambda v: isinstance(v, str) and len(v) == 1),
+    ("Qfixed[2, 3]", lambda v: type(v) in (int, float) and 0 <= v < 4), ("Qfixed2_3", lambda v: type(v) in (int, float) and 0 <= v < 4),
+    ("Qfixed[1, 2]", lambda v: type(v) in (int, float) and 0 <= v < 2), ("Qfixed[9, 9]", _never), ("Qfixed", _never),
+    ("Tuple[Qint4, Qchar]", lambda v: isinstance(v, (list, tuple)) and len(v) == 2 and type(v[0]) is int and 0 <= v[0] < 16
+     and isinstance(v[1], str) and len(v[1]) == 1),
+]
+EXTRA_VALUES = [True, False, 0, 1, 3, 4, 15, 16, 65535, 65536, -1, "x", "xy", "", [1, 2], (1, "x"), [[1, 2], [3, 4]],
+                (True, False), [True, True], 1.5, 4.0, 0.5, [], [0, 1, 2], (16, "x")]
+
+
+def has_float(v):
+    if isinstance(v, float):
+        return True
+    return isinstance(v, (list, tuple)) and any(has_float(x) for x in v)
+
+
+def is_value_cases(types, rng=None):
+    """(annotation source, value, expected, label) for the direct probe of `is_value_of`"""
+    out = []
+    for t in types:
+        src = ty_src(t)
+        bases = [("narrow1", leaf_narrow(1)), ("full", leaf_full)]
+        if rng is not None:
+            bases.append(("rnd", lambda i, lt: (rng.random() < 0.5) if lt == "bool" else rng.randrange(2 ** lt[1])))
+        for bl, base in bases:
+            v = build_value(t, base)
+            out.append((src, v, is_value_of(t, v), f"{bl}:right"))
+            if not (t == "bool" or t[0] == "qint"):
+                out.append((src, tuple(v) if isinstance(v, list) else list(v), is_value_of(t, v), f"{bl}:right_other_sequence"))
+            for lab, w in wrong_shapes(t, v):
+                out.append((src, w, is_value_of(t, w), f"{bl}:{lab}"))
+            for lab, w in entry_variants(t, base):
+                out.append((src, w, is_value_of(t, w), f"{bl}:{lab}"))
+    return out
+
+
 # --------------------------------------------------------------------------- running the real code
 
 
@@ -743,8 +1115,13 @@ class Checker:
                           rows_python_agree=0, rows_out_of_range=0, rows_python_raises=0,
                           rows_type_drop=0, rows_front_end_c01=0, error_cases=0, width_rows=0,
                           width_programs=0, pysem_rows=0, fresh_checks=0, loop_bound_rejected=0,
-                          typed_injections=0, bare_injections=0, out_of_domain_binds=0, typecast_refs=0)
+                          typed_injections=0, bare_injections=0, out_of_domain_binds=0, typecast_refs=0,
+                          shape_programs=0, shape_binds=0, shape_binds_of_declared_type=0, shape_binds_not_of_declared_type=0,
+                          shape_must_bind_checked=0, binds_nested_unread=0, is_value_of_cases=0, is_value_of_true=0, is_value_of_model=0)
         self.model_down = False
+        self.deferred = []
+        self.readable_map = {}
+        self.readable = None
         # C01's listed defects of QintImp.gt / QintImp.sub reach C08 through the narrow injected constants: the
         # width-aware model takes them as quirks; whether they are still in the code is probed here
         self.wquirks = list(self.active) + front_end_quirks()
@@ -777,6 +1154,8 @@ class Checker:
         qlasskit, qlassfun = lib()
         res, st = self.res, self.stats
         st["programs"] += 1
+        if p.get("shape"):
+            st["shape_programs"] += 1
         src = prog_src(p)
         params = [a for a in p["args"] if a["param"]]
         removed = [a for a in p["args"] if a["param"] or a.get("removed")]
@@ -788,7 +1167,6 @@ class Checker:
         except Exception as e:  # noqa
             res.violation(self.case(p), f"a parameterised program is rejected before bind: {type(e).__name__}: {e}")
             return
-        head = self.model([{"op": "c08.bind", "quirks": self.active, "prog": pm, "kv": []}])
         is_unbound = isinstance(u, qlassfun.UnboundQlassf)
         if not is_unbound:
             res.violation(self.case(p), "from_function does not return an UnboundQlassf for a function with Parameter[...] arguments")
@@ -799,17 +1177,20 @@ class Checker:
         if code_params != want_params:
             res.violation(self.case(p), "UnboundQlassf.parameters is not the list of Parameter[...] arguments",
                           code=code_params, expected=want_params)
-        if head is not None:
-            h = head[0]
-            mp = h.get("parameters", [])
-            if h.get("unbound") is not True or [k for k, _ in mp] != [k for k, _ in code_params] or \
-                    mp != [[a["name"], ty_model(a["ty"])] for a in params]:
-                res.disagree(self.case(p), "parameter detection: model != code", code=code_params, model=[h.get("unbound"), mp])
+        # (the model's parameter table is compared in run_model: all model requests of several programs go to the driver
+        # in one batch, see queue_model; the parameter-table request is the last one of the program's list)
         try:
             u.expressions
             res.violation(self.case(p), "an unbound qlassf exposes expressions")
         except Exception:
             pass
+        # can the translator read the declared types (model, active quirks)?  None = no answer
+        self.readable = None
+        if p.get("shape"):
+            key = tuple(ty_src(a["ty"]) for a in params)
+            if key not in self.readable_map:
+                self.prepare_readable([p])
+            self.readable = self.readable_map.get(key)
         fp0 = fingerprint(u)
         body0 = [ast.dump(s) for s in u.fun_ast.body[0].body]
         pyf = oracle_fn(src, p["name"])
@@ -834,11 +1215,20 @@ class Checker:
 
         perms = list(itertools.permutations([a["name"] for a in params]))
         plan = []
+        explicit = p.get("values")
+        if explicit:
+            # a shape program: the listed keyword values (right-shaped with narrow / full entries, then wrongly shaped
+            # ones), then repeated binds of the first / last / first
+            for j, vals in enumerate(explicit):
+                plan.append((("v", j), perms[j % len(perms)], dict(vals)))
+            for j, jj in enumerate([0, len(explicit) - 1, 0]):
+                plan.append((("v", jj), perms[(j + 1) % len(perms)], dict(explicit[jj])))
+            idxs = []
         for j, k in enumerate(idxs):
             plan.append((k, perms[j % len(perms)], values_of(k)))
         # keyword values that are NOT values of the declared type (an int that needs more bits than Qint[n] has,
         # inside a tuple too): bound as bare literals by the repaired bind as well; judged by the same oracles
-        for j, a in enumerate(params):
+        for j, a in enumerate(params if not explicit else []):
             o = out_of_domain(a["ty"], values_of(idxs[-1])[a["name"]])
             if o is not None:
                 vals = values_of(idxs[(j + 1) % len(idxs)])
@@ -846,7 +1236,9 @@ class Checker:
                 plan.append((("ood", j), perms[j % len(perms)], vals))
                 st["out_of_domain_binds"] += 1
         # repeated and alternating binds of values already used, in other keyword orders
-        if len(idxs) >= 2:
+        if explicit:
+            pass
+        elif len(idxs) >= 2:
             a0, a1 = idxs[0], idxs[-1]
             mid = idxs[len(idxs) // 2]
             for j, k in enumerate([a0, a1, a0, mid, a1, a1, a0]):
@@ -883,6 +1275,10 @@ class Checker:
                 case = self.case(p, kv)
                 res.count({"src": src, "bind": sorted(map(list, kv)), "order": list(order)},
                           nontrivial=(len(params) >= 2 or in_bits >= 2), bucket=self.bucket(p))
+                if p.get("shape"):
+                    ptys0 = {a["name"]: a["ty"] for a in params}
+                    st["shape_binds"] += 1
+                    st["shape_binds_of_declared_type" if all(is_value_of(ptys0[n], v) for n, v in kv) else "shape_binds_not_of_declared_type"] += 1
                 if "hd" in captured:
                     hd = captured["hd"]
                     # the property's own reading of the header, independent of the model
@@ -916,6 +1312,10 @@ class Checker:
                     first_table[k] = "rejected"
                     self.judge_rejection(p, kv, err, case)
                     continue
+                if p.get("shape") and self.typed and self.readable is False and \
+                        all(is_value_of(a["ty"], vals[a["name"]]) for a in params):
+                    res.disagree(case, "model: the translator cannot read the declared type of the typed assignment "
+                                       "(AnnE.readable, active quirks) but the code binds a value of it")
                 tab, why = table_of(qf, free, p["rty"])
                 if tab is None:
                     res.violation(case, f"bound function has the wrong interface: {why}")
@@ -942,13 +1342,61 @@ class Checker:
                 res.violation(self.case(p, list(vals.items())), "a fresh unbound object binds to a different function than the one bound many times")
         # --- wrong arity / unknown names
         if n_error:
-            self.check_errors(p, pm, u, fp0, values_of(idxs[0]), reqs, req_meta)
+            self.check_errors(p, pm, u, fp0, dict(plan[0][2]) if explicit else values_of(idxs[0]), reqs, req_meta)
         # --- the model's replies
-        self.run_model(p, reqs, req_meta)
+        reqs.append({"op": "c08.bind", "quirks": self.active, "prog": pm, "kv": []})
+        req_meta.append(("params", self.case(p), code_params))
+        self.queue_model(p, reqs, req_meta)
+
+    def check_head(self, p, h, code_params):
+        params = [a for a in p["args"] if a["param"]]
+        mp = h.get("parameters", [])
+        if h.get("unbound") is not True or [k for k, _ in mp] != [k for k, _ in code_params] or \
+                mp != [[a["name"], ty_model(a["ty"])] for a in params]:
+            self.res.disagree(self.case(p), "parameter detection: model != code", code=code_params, model=[h.get("unbound"), mp])
+
+    def prepare_readable(self, progs):
+        """one driver call: AnnE.readable (active quirks) of the declared parameter types of the shape programs"""
+        keys = []
+        for p in progs:
+            if p.get("shape"):
+                key = tuple(ty_src(a["ty"]) for a in p["args"] if a["param"])
+                if key not in self.readable_map and key not in keys:
+                    keys.append(key)
+        if not keys:
+            return
+        rr = self.model([{"op": "c08.readable", "quirks": self.active,
+                          "anns": [ann_json(ast.parse(src, mode="eval").body) for src in key]} for key in keys])
+        if rr is None:
+            return
+        for key, rep in zip(keys, rr):
+            if "readable" in rep:
+                self.readable_map[key] = all(rep["readable"])
+
+    def queue_model(self, p, reqs, req_meta):
+        """the driver is started once per 20 programs (starting it costs more than evaluating a program's rows)"""
+        self.deferred.append((p, reqs, req_meta))
+        if len(self.deferred) >= 20:
+            self.flush()
+
+    def flush(self):
+        items, self.deferred = self.deferred, []
+        allreqs = [r for _, reqs, _ in items for r in reqs]
+        if not allreqs:
+            return
+        replies = self.model(allreqs)
+        if replies is None:
+            return
+        off = 0
+        for p, reqs, req_meta in items:
+            self.run_model(p, reqs, req_meta, replies[off:off + len(reqs)])
+            off += len(reqs)
 
     def bucket(self, p):
         params = [a for a in p["args"] if a["param"]]
         kinds = sorted({("bool" if a["ty"] == "bool" else a["ty"][0]) for a in params})
+        if p.get("shape"):
+            return f"shape:{'+'.join(kinds)}"
         return f"{len(params)}p:{'+'.join(kinds)}:{'raw' if 'lines' in p else 'expr'}"
 
     # ---- rejection of a bind with the right keywords
@@ -961,7 +1409,20 @@ class Checker:
             ok = True
         except Exception:
             ok = False
-        if ok:
+        tys = {a["name"]: a["ty"] for a in p["args"] if a["param"]}
+        if p.get("must_bind") and all(is_value_of(tys[k], v) for k, v in kv):
+            # a shape program (constant in-range indexing, operators of the width model only) bound to values of the
+            # declared types: nothing in it can be refused
+            self.stats["shape_must_bind_checked"] += 1
+            if QUIRK_NESTED in self.active and any(nested_container_unread(t) for t in tys.values()) \
+                    and err.startswith(UNREAD_ERRORS) and self.readable is False and not ok:
+                # the listed defect, exactly: a Qlist / Qmatrix inside the element annotation of a Qlist / Qmatrix is not
+                # elaborated (the model with the quirk says so too), the typed assignment is refused
+                self.stats["binds_nested_unread"] += 1
+                self.res.known(FID_NESTED)
+            else:
+                self.res.violation(case, f"bind rejects a value of the declared parameter type: {err}")
+        elif ok:
             self.res.violation(case, f"bind rejects values the front end accepts when they are written into the source: {err}")
         else:
             if any("range(" in l for l in body_lines(p)):
@@ -980,7 +1441,9 @@ class Checker:
                 ref, _ = table_of(rqf, free, p["rty"])
         except Exception as e:  # noqa
             res.violation(case, f"bind accepts what the front end rejects on the textually specialised source: {type(e).__name__}: {e}")
-        if self.typed and "body" in p and ref is not None:
+        ptys = {a["name"]: a["ty"] for a in p["args"] if a["param"]}
+        if self.typed and "body" in p and ref is not None and any(is_value_of(ptys[k], v) for k, v in kv if k in ptys):
+            # (with no value of a declared type the typecast source is the source above, character by character)
             # second reference that does not go through the typed assignment: the library's typecasts at the leaves
             try:
                 cqf = qlasskit.qlassf(specialised_src(p, kv, typed=True, casts=True), to_compile=False)
@@ -1084,11 +1547,12 @@ class Checker:
             req_meta.append(("error", case, got))
 
     # ---- model replies
-    def run_model(self, p, reqs, req_meta):
+    def run_model(self, p, reqs, req_meta, replies=None):
         res, st = self.res, self.stats
         if not reqs:
             return
-        replies = self.model(reqs)
+        if replies is None:
+            replies = self.model(reqs)
         if replies is None:
             return
         width_seen = False
@@ -1096,7 +1560,9 @@ class Checker:
             if "driver_error" in rep:
                 res.disagree(case, f"model driver error: {rep['driver_error']}")
                 continue
-            if kind == "header":
+            if kind == "params":
+                self.check_head(p, rep, data)
+            elif kind == "header":
                 b = rep.get("bind", {})
                 hd = data
                 model_hd = {"args": b.get("args"), "injected": [[x[0], x[1], x[2]] for x in b.get("injected", [])],
@@ -1156,6 +1622,49 @@ class Checker:
         if width_seen:
             st["width_programs"] += 1
 
+    # ---- `is_value_of` itself
+    def check_is_value_of(self, cases):
+        """the code's `is_value_of(annotation, value)` against the property's own reading (expected) and the Lean
+        model `isValueOfAnn` on the annotation as written"""
+        _, qlassfun = lib()
+        fn = getattr(qlassfun, "is_value_of", None)
+        res, st = self.res, self.stats
+        if fn is None:
+            return
+        reqs, meta = [], []
+        n_bad = n_dis = 0
+        for src, v, want, label in cases:
+            node = ast.parse(src, mode="eval").body
+            case = {"kind": "is_value_of", "ann": src, "value": v, "variant": label}
+            st["is_value_of_cases"] += 1
+            res.count({"kind": "is_value_of", "ann": src, "value": repr(v)},
+                      nontrivial=isinstance(v, (list, tuple)), bucket="is_value_of:" + label.split(":")[-1].split("_")[0])
+            try:
+                got = fn(node, v)
+            except Exception as e:  # noqa
+                got = f"{type(e).__name__}: {e}"
+            if got is True:
+                st["is_value_of_true"] += 1
+            if got is not want and (n_bad := n_bad + 1) <= 8:
+                # (at most 8 reported from this probe, so that the failing inputs found through bind are listed too)
+                res.violation(case, "is_value_of(declared type, value) is not `value is a value of the declared type` "
+                                    "(this decides whether bind keeps the declared Parameter[T] type)", code=got, expected=want)
+            if not has_float(v):
+                reqs.append([ann_json(node), pyval_json(v)])
+                meta.append((case, got))
+        if not reqs:
+            return
+        rep = self.model([{"op": "c08.isvalueof", "cases": reqs}])
+        if rep is None:
+            return
+        if "driver_error" in rep[0]:
+            res.disagree({"kind": "is_value_of"}, f"model driver error: {rep[0]['driver_error']}")
+            return
+        for (case, got), m in zip(meta, rep[0]["value_of"]):
+            st["is_value_of_model"] += 1
+            if m is not got and (n_dis := n_dis + 1) <= 8:
+                res.disagree(case, "is_value_of: model (isValueOfAnn) != code", code=got, model=m)
+
     def _with_row(self, case, free, i):
         d = dict(case)
         d["inputs"] = row_inputs(free, i)
@@ -1202,6 +1711,19 @@ WITNESS_SRC = "def test(c: Parameter[Qint[4]], a: Qint[4]) -> Qint[4]:\n\treturn
 
 
 def witness_fails(ctx: Ctx, f):
+    if f.get("quirk") == QUIRK_NESTED:
+        qlasskit, _ = lib()
+        w = f["witness"]
+        try:
+            qf = qlasskit.qlassf(w["src"], to_compile=False).bind(**w["bind"])
+        except Exception:
+            return True
+        known = {}
+        for a in qf.args:
+            for i, n in enumerate(a.bitvec):
+                known[n] = bool((w["inputs"][a.name] >> i) & 1)
+        known = eval_expressions(qf, known)
+        return sum((1 << i) for i, n in enumerate(qf.returns.bitvec) if known[n]) != w["expected"]
     if f.get("quirk") != QUIRK:
         return None
     qlasskit, _ = lib()
@@ -1224,12 +1746,38 @@ def witness_fails(ctx: Ctx, f):
 # --------------------------------------------------------------------------- run / replay
 
 
+def n_random_shapes(thorough):
+    return 60 if thorough else 12
+
+
 def all_programs(ctx, n_random):
     progs = [("sys", i, p) for i, p in enumerate(systematic_programs())]
+    progs += [("shp", i, p) for i, p in enumerate(shape_programs(ctx.thorough))]   # same for every seed
     for i in range(n_random):
         prng = random.Random(f"C08-{ctx.seed}-{i}")
         progs.append(("rnd", i, random_program(prng, i, 8 if ctx.thorough else 7)))
+    for i in range(n_random_shapes(ctx.thorough)):
+        prng = random.Random(f"C08-{ctx.seed}-shape-{i}")
+        progs.append(("shr", i, random_shape_program(prng, i)))
     return progs
+
+
+def all_is_value_cases(ctx, progs):
+    """direct probe of is_value_of: every systematic shape and scalar width x (right-shaped, every wrong shape, every
+    wrong entry); the annotations outside the type grammar x a value list; the random shape programs' types"""
+    types = [t for t, _ in shape_types()] + [["qint", w] for w in QINT_WIDTHS] + ["bool"]
+    for n in (1, 2, 3):
+        for m in (1, 2, 3):
+            for el in ("bool", ["qint", 2]):
+                types.append(["qmatrix", el, n, m])
+    cases = is_value_cases(types)
+    for src, want in EXTRA_ANNS:
+        for v in EXTRA_VALUES:
+            cases.append((src, v, bool(want(v)), "extra:annotation"))
+    rng = random.Random(f"C08-{ctx.seed}-isvalue")
+    rtypes = [p["args"][0]["ty"] for kind, _, p in progs if kind == "shr"]
+    cases += is_value_cases(rtypes, rng)
+    return cases
 
 
 def run(ctx: Ctx) -> Result:
@@ -1239,15 +1787,24 @@ def run(ctx: Ctx) -> Result:
         "case = (program source, keyword values in keyword order) or (program, wrong keyword set); every case is "
         "judged on ALL inputs of the remaining arguments; systematic slice (the suite's shapes, every operator x "
         "declared width x argument width x operand side, 1-3 parameters around ordinary arguments, tuples/lists, "
-        "statements, loop bounds, a bare `Parameter` annotation) then random typed programs; per program ONE "
+        "statements, loop bounds, a bare `Parameter` annotation; container shapes: Qmatrix n x m for all 1<=n,m<=3, Qlist "
+        "of length 1..4, mixed Tuples, nested containers, Qint of every shipped width, each bound to values with entries "
+        "narrower than the declared type in width-sensitive bodies, to an out-of-range entry and to wrongly shaped values) "
+        "then random typed programs and random container shapes; also case = (annotation, value) for is_value_of itself "
+        "(every systematic shape x right / transposed / ragged / too long / too short / atom-for-row / wrong-entry values, "
+        "annotations outside the type grammar x a value list); per program ONE "
         "unbound object bound with all parameter values (domain <= limit, else sampled), rotating keyword orders, "
         "repeated/alternating binds; non-trivial = two or more parameters or two or more input bits"
     )
     n_random = 260 if ctx.thorough else 45
     max_values = 64 if ctx.thorough else 16
-    for kind, i, p in all_programs(ctx, n_random):
+    progs = all_programs(ctx, n_random)
+    ck.check_is_value_of(all_is_value_cases(ctx, progs))
+    ck.prepare_readable([p for _, _, p in progs])
+    for kind, i, p in progs:
         prng = random.Random(f"C08-{ctx.seed}-{kind}-{i}-values")
         ck.check_program(p, prng, 64 if (kind == "sys" and ctx.thorough) else max_values)
+    ck.flush()
     res.extra["c08"] = ck.stats
     res.notes.append("rows where the bound function, the front end's translation of the textually specialised source and "
                      f"the width-aware model agree but CPython differs: {ck.stats['rows_front_end_c01']} attributed to the "
@@ -1272,12 +1829,31 @@ def replay(ctx: Ctx, payload):
     case = first.get("case", {})
     print("replaying", json.dumps(case)[:2000])
     src = case.get("src")
-    if not src:
-        return 2
     for f in ctx.findings:
         f["_active"] = bool(witness_fails(ctx, f)) if f.get("status", "open") == "open" else False
     res = Result("C08")
     ck = Checker(ctx, res)
+    if case.get("kind") == "is_value_of":
+        v = case.get("value")
+        ann = case["ann"]
+        want = None
+        ctx.seed = payload.get("seed", 0)
+        ctx.tier = payload.get("tier", "quick")
+        for s2, v2, w2, _ in all_is_value_cases(ctx, all_programs(ctx, 260 if ctx.tier == "thorough" else 45)):
+            if s2 == ann and json.loads(json.dumps(v2)) == v:
+                v, want = v2, w2
+                break
+        if want is None:
+            print("case not found in the generator stream")
+            return 2
+        ck.check_is_value_of([(ann, v, want, case.get("variant", "replay"))])
+        for x in res.violations[:3]:
+            print(json.dumps(x, indent=1, default=str)[:3000])
+        for d in res.disagreements[:3]:
+            print("DISAGREE", json.dumps(d, indent=1, default=str)[:2000])
+        return 1 if (res.violations or res.disagreements) else 0
+    if not src:
+        return 2
     tier = payload.get("tier", "quick")
     ctx.tier = tier
     ctx.seed = payload.get("seed", 0)
@@ -1292,6 +1868,7 @@ def replay(ctx: Ctx, payload):
     kind, i, p = prog
     prng = random.Random(f"C08-{ctx.seed}-{kind}-{i}-values")
     ck.check_program(p, prng, 64 if (kind == "sys" and tier == "thorough") else (64 if tier == "thorough" else 16))
+    ck.flush()
     for v in res.violations[:3]:
         print(json.dumps(v, indent=1, default=str)[:3000])
     for d in res.disagreements[:3]:
